@@ -417,6 +417,8 @@ class Ctx:
         'dcommon': ('GenD', ['t_common', 't_logscale']),
         'dudf': ('GenD', ['t_udf']),
         'dint': ('GenD', ['t_integration']),
+        'sstack': ('GenS', ['t_stack']),
+        'sfv': ('GenS', ['t_feature_vector', 't_circular_stack']),
         # property clauses about the kernels as compiled from source (compose bridges with the model's theorems)
         'ksrccrop': ('GenK', []),
         'ksrceval': ('GenK', []),
@@ -437,6 +439,7 @@ class Ctx:
         import translate_fm
         import translate_u
         import translate_d
+        import translate_s
         gendir = os.path.join(self.rundir, 'gen')
         os.makedirs(gendir, exist_ok=True)
         expanded = []
@@ -449,7 +452,7 @@ class Ctx:
         relevant = set(f for t in topics for f in self.TOPICS[t][1])
         problems = []
         for gf in files:
-            mod = {'Gen': translate, 'GenQ': translate_q, 'GenK': translate_k, 'GenV': translate_v, 'GenFM': translate_fm, 'GenU': translate_u, 'GenD': translate_d}[gf]
+            mod = {'Gen': translate, 'GenQ': translate_q, 'GenK': translate_k, 'GenV': translate_v, 'GenFM': translate_fm, 'GenU': translate_u, 'GenD': translate_d, 'GenS': translate_s}[gf]
             # only the functions the requested topics depend on are translated: nothing else can break this property's layer
             txt, probs = mod.translate(REPO, only=relevant)
             problems += probs
